@@ -304,6 +304,23 @@ def position_class(pos):
     return pos.split(">")[0]
 
 
+def witness_regressions(rp):
+    """replay the witnesses of known_findings.d/C16.json on the implementation: a fixed one must pass"""
+    for k in common.known_findings("C16"):
+        w = k.get("witness")
+        if not w or "sql" not in w:
+            continue
+        wr = run_harness([dict(w, id=0)], rp, "witness")
+        if not wr or not wr[0]["accepted"]:
+            continue
+        fails = check_result(wr[0], (w["payload"]["pattern"], w["payload"]["severity"]) if w.get("payload") else None)
+        if k["status"] == "fixed" and fails:
+            rp.violation({"kind": "regression", "known_key": k["key"], "input": w, "failure": fails,
+                          "explanation": "a defect recorded as fixed is back"}, "regression_" + k["key"])
+        if k["status"] == "known" and not fails:
+            rp.cov["notes"].append("stale known finding (witness passes now): " + k["key"])
+
+
 def probe_roots(rp):
     """which top-level statement kinds does Scanner.Scan start a traversal from?  One statement of each statement kind
     of the reference grammar carrying SLEEP(5) (lib/qast.py ROOT_PROBES) -> Gen/QRoots.v.  Returns ({kind: bool}, not-roots)"""
@@ -346,6 +363,8 @@ def run(tier):
                 "theories/Props/C16.v", THEOREMS, inst_names=["Inst_C15.em_covers_ok"])
             rp.obligation("Inst_C16.roots_cover_ok", ok_roots, "" if ok_roots else log_roots[-300:])
     except common.StageError as e:
+        if e.stage == "qslots":         # a modelled node type / field is gone: is a repaired defect back?  (failing input for the report)
+            witness_regressions(rp)
         return common.stage_fail(rp, e)
     # a statement kind of the grammar Scan does not start from: the probe statement is the failing input
     for k, ty, sql, r in not_roots:
@@ -490,19 +509,7 @@ def run(tier):
                   texts is not None and not [1 for t, pat, sv, fs in sql_bad if json.dumps({"kind": "scansql", "pattern": pat, "text": t}, sort_keys=True) not in known])
 
     # ---- known / fixed witnesses ----
-    for k in common.known_findings("C16"):
-        w = k.get("witness")
-        if not w or "sql" not in w:
-            continue
-        wr = run_harness([dict(w, id=0)], rp, "witness")
-        if not wr or not wr[0]["accepted"]:
-            continue
-        fails = check_result(wr[0], (w["payload"]["pattern"], w["payload"]["severity"]) if w.get("payload") else None)
-        if k["status"] == "fixed" and fails:
-            rp.violation({"kind": "regression", "known_key": k["key"], "input": w, "failure": fails,
-                          "explanation": "a defect recorded as fixed is back"}, "regression_" + k["key"])
-        if k["status"] == "known" and not fails:
-            rp.cov["notes"].append("stale known finding (witness passes now): " + k["key"])
+    witness_regressions(rp)
 
     # ---- correspondences inside Coq ----
     unknown = set()
